@@ -1,6 +1,47 @@
-"""C01  Rendered markup parses back to the same element tree."""
+"""C01  Rendered markup parses back to the same element tree.
+
+PUBLIC ENTRY POINTS AND ARGUMENTS THAT REACH THE RENDERED MARKUP OF A TREE OF ORDINARY ELEMENTS
+(each is exercised below with non-default values and judged by the parse-back oracle; the step that
+does it is named in brackets):
+
+  rendering
+    Tag.get_html_string(indent=, eol=)                          [main differential; ROUTES "get_html_string"]
+    TagList.get_html_string(indent=, eol=, add_ws=True|False)   [ROUTES "get_html_string" on top-level lists]
+    str() / repr() / _repr_html_() / render()["html"] / tagify().get_html_string() of Tag and TagList,
+    str() with htmltools.html_dependency_render_mode = "json"   [trees.render_routes: main oracle, ROUTES "all routes"]
+    Tag.save_html / TagList.save_html(file, libdir=, include_version=)            [ROUTES "save_html"]
+    HTMLDocument(*children, **html_attrs).render(lib_prefix=, include_version=)   [ROUTES "document"]
+    HTMLDocument.save_html(file, libdir=, include_version=)                       [ROUTES "document file"]
+    HTMLDocument around the user's own <html>/<head>/<body>, HTMLDocument.append  [ROUTES "own html", "document append"]
+    head_content(tree) hoisted into the <head> of a document                      [ROUTES "head_content"]
+    HTMLTextDocument(template, deps=, deps_replace_pattern=<regex metacharacters>).render(lib_prefix=,
+      include_version=) around markup produced in json dependency mode            [ROUTES "json text document"]
+    the with-block route (Tag.__enter__/__exit__, sys.displayhook, wrap_displayhook_handler)  [ROUTES "with block"]
+  building the tree that is rendered
+    Tag(name, *children and attribute dicts, _add_ws=, **attributes); the tag functions of htmltools.tags,
+      htmltools.svg and the top-level re-exports (htmltools.div ...)              [public_api; ROUTES "tag functions"]
+    children given as nested lists / tuples / TagLists / None                      [ROUTES "nested containers"]
+    Tag.append / extend / insert, TagList.append / extend / insert, attrs[...] = , attrs.update
+      (two objects of each class built interleaved)                               [histories; ROUTES "incremental"]
+    TagList.__add__ / __radd__ / __iadd__ (with lists, tuples, strings)           [ROUTES "list arithmetic"]
+    copy.copy / copy.deepcopy / tagify() of a tree, the original afterwards        [ROUTES "copies"]
+    consolidate_attrs(*args, **kwargs) and back into a tag; another tag's .attrs passed as an attribute
+      dict; add_class / add_style(prepend=)                                        [ROUTES "tag functions"; public_api]
+    one object placed in two parents; a tag used as a context manager and then copied / rendered
+                                                                                   [ROUTES "two parents", "with block"]
+    tagifiable objects (also ones that are self-rendering too) whose expansion is ordinary; HTMLDependency /
+      head_content() metadata nodes among the children                            [ROUTES trees with 'C' / dependency nodes]
+  not exercised here: Tag.show / TagList.show (opens a browser or needs IPython; it is save_html / str underneath),
+    HTMLDependency.serialize_to_script_json(indent=) (the dependency's own markup: C13), __eq__ (C17).
+"""
 from __future__ import annotations
 
+import copy as _copy
+import os
+import random as _random
+import shutil
+import sys
+import tempfile
 from html.parser import HTMLParser
 
 from ..common import Ctx, S, unS, differential, run_model
@@ -18,8 +59,9 @@ VOID = ["area", "base", "br", "col", "command", "embed", "hr", "img", "input", "
 
 # ---- independent parser: html.parser -> forest ------------------------------------------
 class P(HTMLParser):
-    def __init__(self):
+    def __init__(self, doctype=False):
         super().__init__(convert_charrefs=True)
+        self.doctype = doctype        # accept one <!DOCTYPE html> before anything else
         self.root = []
         self.stack = [self.root]
         self.names = []
@@ -52,6 +94,9 @@ class P(HTMLParser):
         self.err = "comment"
 
     def handle_decl(self, decl):
+        if self.doctype and not self.events and not self.root and decl.strip().lower() == "doctype html":
+            self.doctype = False
+            return
         self.err = "declaration"
 
     def handle_pi(self, data):
@@ -61,8 +106,8 @@ class P(HTMLParser):
         self.err = "unknown declaration"
 
 
-def py_parse(s: str):
-    p = P()
+def py_parse(s: str, doctype=False):
+    p = P(doctype)
     p.feed(s)
     p.close()
     if p.err:
@@ -75,10 +120,14 @@ def py_parse(s: str):
 def expected_events(d, acc):
     """start/end tag events the statement demands: one self-closed tag for a childless void
     element, own start and end tag otherwise"""
+    if d[0] in "LC":
+        for k in (d[1] if d[0] == "L" else d[2]):
+            expected_events(k, acc)
+        return acc
     if d[0] != "G":
         return acc
     name = lower_ascii(d[1])
-    if not [k for k in d[4] if k[0] != "M"] and d[1] in VOID:
+    if not real_kids(d[4]) and d[1] in VOID:
         acc.append(("S", name, True))
         return acc
     acc.append(("S", name, False))
@@ -86,6 +135,17 @@ def expected_events(d, acc):
         expected_events(k, acc)
     acc.append(("E", name))
     return acc
+
+
+def real_kids(kids):
+    """the children an element has once tagifiable objects are expanded, metadata nodes apart"""
+    out = []
+    for k in kids:
+        if k[0] == "C":
+            out.extend(real_kids(k[2]))
+        elif k[0] != "M":
+            out.append(k)
+    return out
 
 
 def canon(forest):
@@ -122,6 +182,11 @@ def expected(d):
         for x in d[4]:
             kids.extend(expected(x))
         return [["E", lower_ascii(d[1]), [[lower_ascii(a), v] for a, (_, v) in d[3]], kids]]
+    if k in "LC":          # a top-level list / a tagifiable object: the forests of the members / of the expansion
+        out = []
+        for x in (d[1] if k == "L" else d[2]):
+            out.extend(expected(x))
+        return out
     return []
 
 
@@ -159,7 +224,7 @@ def ord_tree(rng, depth, catalogue):
         if lower_ascii(k) not in seen:
             seen.add(lower_ascii(k))
             keys.append(k)
-    attrs = [(k, ("S", trees.rand_text(rng, 7))) for k in keys]
+    attrs = [(k, ("S", trees.rand_text(rng, 7) if rng.random() < 0.94 else uni_text(rng, rng.randrange(1, 7)))) for k in keys]
     kids = []
     if depth > 0:
         for _ in range(rng.choice([0, 0, 1, 1, 2, 3, 4])):
@@ -167,7 +232,8 @@ def ord_tree(rng, depth, catalogue):
             if q < 0.5:
                 kids.append(ord_tree(rng, depth - 1, catalogue))
             elif q < 0.9:
-                kids.append(("T", rng.choice([trees.rand_text(rng, 8), str(rng.randrange(-5, 100)), str(rng.random())])))
+                kids.append(("T", rng.choice([trees.rand_text(rng, 8), str(rng.randrange(-5, 100)), str(rng.random())])
+                             if rng.random() < 0.94 else uni_text(rng, rng.randrange(1, 9))))
             else:
                 kids.append(("M", None))
     return ("G", name, ws, attrs, kids)
@@ -181,7 +247,13 @@ def run(ctx: Ctx) -> None:
                 "indent 0..5, 7 whitespace eol strings. Oracles: html.parser rebuilds the forest from the "
                 "implementation's output; the Coq spec tokenizer+builder does the same; both must equal the tree's "
                 "canonical forest. Non-trivial = tree has >= 3 elements and a text leaf with a metacharacter; "
-                "distinct = canonical (tree, indent, eol).")
+                "distinct = canonical (tree, indent, eol). SIZES: wide (7..300 children of one kind / mixed, text on both "
+                "sides of every power of two), 7..300 attributes, chains of depth 7..70, full trees, strings of 300..70001 "
+                "characters (text, attribute values, names) with the telling content in the tail and at block seams, files "
+                "> 256 KiB, indents up to 300, long eol strings. ROUTES: every public entry point and argument that reaches "
+                "the markup (list at the top of harness/props/C01.py), each on a tree holding every boundary code point, on "
+                "the big cases in turn, and on random ordinary trees with dependency nodes, tagifiable objects and "
+                "top-level lists; documents and files are parsed as documents (the <body> content must be the tree).")
     ctx.assumptions = ["html.parser is a faithful HTML tokenizer on the renderer's output language",
                        "the spec tokenizer covers only the tokenizer states the renderer can reach (fails otherwise)"]
     ctx.proof()
@@ -198,6 +270,19 @@ def run(ctx: Ctx) -> None:
     for _ in range(ctx.budget(2500, 40000)):
         d = ord_tree(rng, rng.choice([1, 2, 3, 3, 4, 5]), catalogue)
         cases.append((d, rng.randrange(0, 6), rng.choice(EOLS)))
+    # sizes and depths: the big cases the extracted model can take (all of them go through ROUTES below)
+    bigs = big_cases(ctx, catalogue)
+    fit = []
+    for d, what in bigs:
+        i, eol = rng.choice([0, 1, 2, 5]), rng.choice(EOLS)
+        if model_cost_ok(d, i, eol):
+            fit.append((d, i, eol))
+    cases.extend(rng.sample(fit, min(len(fit), ctx.budget(40, 400))))
+    # large indent / long eol arguments on small trees
+    for _ in range(ctx.budget(12, 120)):
+        d, i, eol = ord_tree(rng, rng.choice([0, 1, 2]), catalogue), rng.choice(BIG_INDENTS), rng.choice(EOLS + BIG_EOLS)
+        if model_cost_ok(d, i, eol):
+            cases.append((d, i, eol))
 
     cases = ctx.select("Tag.get_html_string (ordinary trees)", cases)
     # spec side: ordinary? + canonical forest of the tree
@@ -277,6 +362,7 @@ def run(ctx: Ctx) -> None:
     ctx.obligation("spec tokenizer+builder agrees with html.parser on every rendered string", agree)
     histories(ctx, catalogue)
     public_api(ctx, catalogue)
+    routes(ctx, catalogue, bigs)
 
 
 
@@ -323,7 +409,8 @@ def histories(ctx: Ctx, catalogue) -> None:
                     walk(c)
         walk(t)
         log = []
-        for _ in range(rng.choice([1, 2, 3])):
+        # mostly short histories; now and then one of 7 .. 300 operations (just below / at / above the powers of two)
+        for _ in range(rng.choice([1, 2, 3]) if rng.random() < 0.97 else rng.choice(SIZES)):
             u = rng.choice(tags_)
             keys = list(u.attrs)
             op = rng.choice(["del", "pop", "popitem", "clear", "set", "update", "add_class", "remove_class",
@@ -422,6 +509,21 @@ def public_api(ctx: Ctx, catalogue) -> None:
             continue
         desc, t = r[1]
         ctx.count(("public", repr(desc)), True, "tag built with keyword / dict attributes")
+        # class / style helpers (plain and HTML() values, both ends), then the attributes through
+        # consolidate_attrs() and back into a new tag of the same name with the same children
+        helpers = []
+        for _ in range(rng.choice([0, 0, 1, 2, 3]) if rng.random() < 0.98 else rng.choice(SIZES)):
+            h = rng.choice(["add_class", "add_style", "add_style_html", "remove_class"])
+            pre = rng.random() < 0.5
+            # (trusted markup put into an attribute must itself be valid attribute-value markup: no raw double quote)
+            v = (rng.choice(["a", "b"]) if h == "remove_class" else rng.choice(["a", "b c", "x<y", "q&quot;r", "&amp;", "it's"])
+                 if h == "add_style_html" else rng.choice(["a", "b c", "x<y", "q\"r", "&amp;", "it's"]))
+            helpers.append((h, v, pre))
+            rr = safe_call(lambda: t.add_class(v, prepend=pre) if h == "add_class" else t.remove_class(v) if h == "remove_class"
+                           else t.add_style(v + ";", prepend=pre) if h == "add_style" else t.add_style(HTML(v + ";"), prepend=pre))
+            if rr[0] != "ok" or rr[1] is not t:
+                ctx.violation("a class / style helper raised or did not return the tag", [desc, helpers], {"result": repr(rr)})
+        desc = desc + [helpers]
         want = canon(live_expected(t))
         for name, f in trees.render_routes(t):
             out = safe_call(f)
@@ -431,6 +533,863 @@ def public_api(ctx: Ctx, catalogue) -> None:
                               "values and children) does not parse back to the tree it stores", desc,
                               {"route": name, "impl_output": out, "expected_forest": want})
                 break
+        back = safe_call(lambda: (lambda a, k: Tag(t.name, a, *k, _add_ws=t.add_ws))(*htmltools.consolidate_attrs(t.attrs, *t.children)))
+        out = safe_call(lambda: back[1].get_html_string()) if back[0] == "ok" else back
+        p = py_parse(out[1]) if out[0] == "ok" else ("err", out)
+        if p[0] != "ok" or p[1] != want:
+            ctx.violation("the attributes of a tag taken through consolidate_attrs() and put into a new tag with the same "
+                          "children do not parse back to the same tree", desc, {"impl_output": out, "expected_forest": want})
+
+
+# ==========================================================================================
+# SIZES AND DEPTHS: generators that reach just below / at / above 8, 16, 32, 64, 128, 256 (and 300)
+# for every countable thing of the statement, with the telling content BEYOND the threshold
+# ==========================================================================================
+SIZES = [7, 8, 9, 15, 16, 17, 31, 32, 33, 63, 64, 65, 66, 127, 128, 129, 130, 255, 256, 257, 300]
+DEPTHS = [7, 8, 9, 15, 16, 17, 31, 32, 33, 63, 64, 65, 70]
+STRLENS = [300, 4095, 4097, 5000, 8193, 65535, 65537, 70001]
+BIG_INDENTS = [7, 8, 9, 16, 33, 64, 65, 300]
+BIG_EOLS = ["\n" * 9, " " * 65, "\r\n\t" * 100, "\n" + " " * 300]
+# code points at the edges of the Unicode blocks / encodings' length classes, C0 and C1 controls, characters
+# str.isspace() accepts but HTML does not treat as whitespace, non-characters, the BOM
+BOUNDARY_CPS = [0x01, 0x08, 0x0B, 0x0E, 0x1F, 0x7F, 0x80, 0x85, 0x91, 0x93, 0x99, 0x9F, 0xA0, 0xAD, 0xFF, 0x100,
+                0x17F, 0x7FF, 0x800, 0x1680, 0x2003, 0x2028, 0x2029, 0x200B, 0x202E, 0x3000, 0xD7FF, 0xE000, 0xFDD0,
+                0xFEFF, 0xFFFD, 0xFFFE, 0xFFFF, 0x10000, 0x1F600, 0xE0001, 0x10FFFF]
+SNIPPETS = ["<", "&", ">", '"', "'", "&amp;", "&lt;", "</p>", "<!--", "\r\n", "\u0085", "\u0093", " ",
+            "\U0001F600", "&#147;", "]]>", "<br/>", "\t", "&#x", " "]
+UNITS = ["a", "ab c ", "é", "日本", "\U0001F600x", "x<y & ", "q\u0093", "'\"", "&amp;"]
+
+
+def uni_text(rng, n=6):
+    """text over the boundary code points (plus one markup metacharacter now and then)"""
+    return "".join(chr(rng.choice(BOUNDARY_CPS)) if rng.random() < 0.85 else rng.choice("<&\"'>a ") for _ in range(n))
+
+
+def long_text(rng, n):
+    """>= n characters of filler with telling snippets in the tail, in the middle and on both sides of
+    every block boundary (64, 256, 4 Ki, 8 Ki, 64 Ki, 128 Ki, 256 Ki) below n"""
+    unit = rng.choice(UNITS)
+    chars = list((unit * (n // len(unit) + 1))[:n])
+    marks = {n - 1, n - 2, n // 2}
+    for b in (64, 256, 4096, 8192, 65536, 131072, 262144):
+        if b + 1 < n:
+            marks.update((b - 1, b, b + 1))
+    for p in sorted(marks):
+        chars[p] = rng.choice(SNIPPETS)
+    return "".join(chars)
+
+
+def small_text(rng, i):
+    """a short text leaf that is different for every index i (a lost, repeated or moved leaf shows)"""
+    r = rng.random()
+    if r < 0.15:
+        return str(i)                              # numeric text
+    return "t%d%s" % (i, rng.choice(["", "", "<", "&", " ", "\u0093", '"', "\n", " ", ";"]))
+
+
+def small_elem(rng, i):
+    r = rng.random()
+    if r < 0.3:
+        return ("G", rng.choice(VOID), rng.random() < 0.5, [("id", ("S", "v%d" % i))], [])
+    name, ws = rng.choice([("span", False), ("b", False), ("a", False), ("li", True), ("div", True), ("td", True),
+                           ("p", True), ("my-el", False)])
+    if rng.random() < 0.15:
+        ws = not ws
+    return ("G", name, ws, [("id", ("S", "e%d" % i))] if rng.random() < 0.6 else [],
+            [("T", "x%d" % i)] if rng.random() < 0.7 else [])
+
+
+def wide_kids(rng, n, mix):
+    """n children.  mix: 'T' text / numeric leaves only (ONE run of text: every seam between two
+    leaves is inside it), 'G' elements only, 'M' text leaves separated by runs of metadata nodes,
+    'X' everything, with text on both sides of every power of two often"""
+    kids = []
+    for i in range(n):
+        if mix == "T":
+            kids.append(("T", small_text(rng, i)))
+        elif mix == "G":
+            kids.append(small_elem(rng, i))
+        elif mix == "M":
+            kids.append(("T", small_text(rng, i)) if i in (0, n - 1) or rng.random() < 0.1 else ("M", None))
+        else:
+            r = rng.random()
+            kids.append(("T", small_text(rng, i)) if r < 0.45 else small_elem(rng, i) if r < 0.9 else ("M", None))
+    if mix == "X" and rng.random() < 0.6:
+        for b in (8, 16, 32, 64, 128, 256):
+            if b < n:
+                kids[b - 1] = ("T", small_text(rng, b - 1))
+                kids[b] = ("T", small_text(rng, b))
+    return kids
+
+
+def many_attrs(rng, n):
+    """n attributes with distinct names (also after lower-casing); the richest values come last"""
+    out = []
+    for i in range(n):
+        nm = rng.choice(["data-a%d", "aria-x%d", "x%d", "A%d", "ns:a%d", "v%dB"]) % i
+        tail = i >= n - 3
+        v = (rng.choice(SNIPPETS) + "v%d" % i + rng.choice(SNIPPETS)) if tail or rng.random() < 0.2 else "v%d" % i
+        out.append((nm, ("S", v)))
+    return out
+
+
+def deep_chain(rng, n, bottom):
+    """the tree `bottom` under n nested elements (both whitespace flags, siblings before / after at
+    some levels, attributes at some levels)"""
+    t = bottom
+    for i in range(n):
+        name, ws = rng.choice([("div", True), ("span", False), ("ul", True), ("li", True), ("b", False), ("section", True),
+                               ("a", False), ("x", rng.random() < 0.5)])
+        kids = [t]
+        r = rng.random()
+        if r < 0.2:
+            kids = [("T", "p%d<" % i), t]
+        elif r < 0.4:
+            kids = [t, ("T", "&s%d" % i)]
+        elif r < 0.5:
+            kids = [("G", "br", False, [], []), t, ("M", None)]
+        t = ("G", name, ws, [("id", ("S", "d%d\"" % i))] if rng.random() < 0.2 else [], kids)
+    return t
+
+
+def bushy(rng, depth, fan, path="r"):
+    """a full tree: `fan` children at each of `depth` levels, every node marked with its path"""
+    name, ws = rng.choice([("div", True), ("span", False), ("p", True), ("b", False)])
+    if depth == 0:
+        return ("G", name, ws, [], [("T", path + rng.choice(["", "<", "&"]))])
+    return ("G", name, ws, [("id", ("S", path))], [bushy(rng, depth - 1, fan, path + str(i)) for i in range(fan)])
+
+
+def big_cases(ctx, catalogue):
+    """(description, what is big) -- the same families in both tiers; the thorough tier draws each
+    several times"""
+    rng = ctx.rng
+    out = []
+    for _ in range(ctx.budget(1, 4)):
+        for n in SIZES:
+            for mix in "TGMX":
+                kids = wide_kids(rng, n, mix)
+                where = rng.choice(["block", "inline", "list", "nested", "void"])
+                if where == "block":
+                    d = ("G", rng.choice(["div", "p", "ul", "table", "section"]), True, [], kids)
+                elif where == "inline":
+                    d = ("G", rng.choice(["span", "a", "b", "textPath"]), rng.random() < 0.15, [], kids)
+                elif where == "list":
+                    d = ("L", kids)
+                elif where == "void":
+                    d = ("G", rng.choice(VOID), rng.random() < 0.5, [], kids)
+                else:
+                    d = ("G", "div", True, [], [("T", "before<"), ("G", rng.choice(["ul", "span"]), rng.random() < 0.5, [], kids),
+                                                ("T", "&after")])
+                out.append((d, "%d children (%s) in %s" % (n, mix, where)))
+            d = ("G", rng.choice(["div", "img", "a", "my-el"]), rng.random() < 0.5, many_attrs(rng, n),
+                 [("T", "x<")] if rng.random() < 0.5 else [])
+            out.append((d, "%d attributes" % n))
+        for n in DEPTHS:
+            bottom = rng.choice([("T", "bottom<&"), ("G", "br", False, [("id", ("S", "b\"'"))], []),
+                                 ("G", "p", True, [], wide_kids(rng, 9, "X")), ord_tree(rng, 2, catalogue)])
+            out.append((deep_chain(rng, n, bottom), "depth %d" % n))
+            out.append((("L", [("T", "a<"), deep_chain(rng, n, bottom), ("T", "z&")]), "depth %d in a list" % n))
+        for n in STRLENS:
+            s = long_text(rng, n)
+            out.append((("G", "div", rng.random() < 0.5, [], [("G", "br", False, [], []), ("T", s)]), "text of %d characters" % n))
+            out.append((("G", "a", rng.random() < 0.5, [("id", ("S", "i")), ("title", ("S", long_text(rng, n)))],
+                         [("T", "x")]), "attribute value of %d characters" % n))
+            out.append((("G", "p", True, [], [("T", s)]), "only child: text of %d characters" % n))
+        n = rng.choice([300, 4097])
+        out.append((("G", "x-" + "a" * n, rng.random() < 0.5, [("data-" + "b" * n, ("S", "v<"))], [("T", "&")]),
+                    "tag and attribute names of %d characters" % n))
+        out.append((bushy(rng, 8, 2), "full binary tree of depth 8"))
+        out.append((bushy(rng, 3, 7), "full tree, 7 children at 3 levels"))
+        out.append((("G", "div", True, [], [("T", uni_text(rng, 1)) for _ in range(300)]), "300 one-character leaves"))
+    return out
+
+
+def model_cost_ok(d, indent, eol):
+    """the extracted specification is cubic in the length of a run of text leaves and quadratic in the
+    length of the rendered string: only cases within its reach go to the model (all of them go to the
+    html.parser oracle)"""
+    if d[0] != "G":
+        return False
+    worst = [0]
+
+    def walk(x, depth):
+        pad = 2 * (indent + depth) + len(eol)
+        if x[0] == "T":
+            return 2 * len(x[1]) + pad
+        if x[0] != "G":
+            return 0
+        run = 0
+        tot = 2 * (len(x[1]) + pad) + 5 + sum(len(a) + 2 * len(v[1]) + 4 for a, v in x[3])
+        for k in x[4]:
+            run = run + 1 if k[0] in "TM" else 0
+            worst[0] = max(worst[0], run)
+            tot += walk(k, depth + 1)
+        return tot
+    return walk(d, 0) <= 5000 and worst[0] <= 70
+
+
+# ==========================================================================================
+# ROUTES: every entry point that reaches the markup of an ordinary tree, with non-default arguments
+# ==========================================================================================
+STEP = "entry points and arguments"
+DEP_PAYLOADS = [{"name": "a", "version": "1.0", "head": "<meta name='x'/>"},
+                {"name": "b-c", "version": "2.10.1", "head": "<link rel=\"x\" href=\"y&amp;z\"/>"},
+                {"name": "a", "version": "1.2"}]
+PATTERNS = ["<!-- HEAD (.*)+ [deps] \\1 ^$ -->", "<!--[if deps]?{2}|*-->", "<!-- $& \\g<0> (?P<x>) -->", "<!--.-->"]
+FILE_NAMES = ["index.html", "a b.htm", "é.html", "x"]
+HTML_KW = [{}, {"lang": "en"}, {"lang": "en", "class_": "a b", "style": "x:y;"}, {"data_theme": "d\"<&'k", "lang": "fr-CA"}]
+
+
+def kw_expected(kw):
+    """attributes of the root element for keyword arguments: the documented spelling rule (a trailing
+    underscore is dropped, the other underscores become hyphens); insertion order"""
+    return [[(k[:-1] if k.endswith("_") else k).replace("_", "-"), v] for k, v in kw.items()]
+
+
+class Broken(Exception):
+    """a clause of the oracle that is decided inside a builder"""
+
+
+def depth_of(d):
+    kids = d[4] if d[0] == "G" else d[1] if d[0] == "L" else d[2] if d[0] == "C" else []
+    return 1 + max([depth_of(k) for k in kids], default=0)
+
+
+def has_kind(d, kind):
+    if d[0] == kind:
+        return True
+    kids = d[4] if d[0] == "G" else d[1] if d[0] == "L" else d[2] if d[0] == "C" else []
+    return any(has_kind(k, kind) for k in kids)
+
+
+def top_items(d):
+    return list(d[1]) if d[0] == "L" else [d]
+
+
+def mk(d):
+    """live object of a description (top-level lists and dependency nodes included)"""
+    if d[0] == "L":
+        return TagList(*[mk(k) for k in d[1]])
+    if d[0] == "M" and d[1] is not None:
+        return htmltools.HTMLDependency(**d[1])
+    if d[0] == "G":
+        t = Tag(d[1], *[trees.mk_child_text(k[1]) if k[0] == "T" else mk(k) for k in d[4]], _add_ws=d[2])
+        for key, (m, v) in d[3]:
+            dict.__setitem__(t.attrs, key, trees.mk_text(v))
+        return t
+    if d[0] == "C":
+        _, sh, exp, as_list = d
+        exp_b = [trees.mk_text(k[1]) if k[0] == "T" else mk(k) for k in exp]     # tagify() may return a str, not a number
+        return trees.CustomObj(exp_b, as_list) if sh is None else trees.CustomReprObj(exp_b, as_list, sh)
+    return build(d)
+
+
+def doc_safe(d):
+    """HTMLDocument treats a single top-level <html> / <body> element as the document's own: for the
+    routes that wrap the tree into a document the root gets another name"""
+    if d[0] == "G" and d[1] in ("html", "body"):
+        return ("G", "div") + tuple(d[2:])
+    return d
+
+
+def find(forest, name):
+    return [e for e in forest if e[0] == "E" and e[1] == name]
+
+
+LAST = {}
+
+
+def judge_fragment(label, markup, d, events=True):
+    LAST["output"] = markup
+    if not isinstance(markup, str):
+        return f"{label}: the result is {type(markup).__name__}, not str"
+    p = py_parse(markup)
+    if p[0] != "ok":
+        return f"{label}: output does not parse as balanced HTML: {p[1]}"
+    if p[1] != canon(expected(d)):
+        return f"{label}: the output does not parse back to the tree"
+    if events and p[2] != expected_events(d, []):
+        return f"{label}: tag events differ: self-closed form must be used exactly for childless void elements"
+    return None
+
+
+def judge_document(label, markup, d, html_attrs=None, body_attrs=(), in_head=None, doctype=True):
+    """a complete document: one <html> element holding <head> then <body>; the <body>'s content parses
+    back to the tree (in_head: the <head>'s content after <meta charset> and the dependency list does)"""
+    LAST["output"] = markup
+    if not isinstance(markup, str):
+        return f"{label}: the result is {type(markup).__name__}, not str"
+    p = py_parse(markup, doctype=doctype)
+    if p[0] != "ok":
+        return f"{label}: document does not parse as balanced HTML: {p[1]}"
+    roots = [e for e in p[1] if e[0] == "E"]
+    if len(roots) != 1 or roots[0][1] != "html" or len(p[1]) != 1:
+        return f"{label}: the document is not exactly one <html> element"
+    html = roots[0]
+    if html_attrs is not None and html[2] != html_attrs:
+        return f"{label}: the <html> element's attributes do not decode to the given ones"
+    if [e[1] for e in html[3] if e[0] == "E"] != ["head", "body"] or len(html[3]) != 2:
+        return f"{label}: <html> does not hold exactly <head> and <body>"
+    head, body = html[3]
+    if body[2] != [list(a) for a in body_attrs]:
+        return f"{label}: the <body> element's attributes differ"
+    if body[3] != canon(expected(d)):
+        return f"{label}: the <body> content does not parse back to the tree"
+    if in_head is not None:
+        rest = [e for e in head[3][1:] if not (e[0] == "E" and e[1] == "script" and ["type", "application/html-dependencies"] in e[2])]
+        if rest != canon(expected(in_head)):
+            return f"{label}: the head_content() part of <head> does not parse back to the tree"
+    return None
+
+
+def read_file(path):
+    """the file's bytes, decoded the way the document itself declares (<meta charset="utf-8">)"""
+    with open(path, "rb") as f:
+        return f.read().decode("utf-8")
+
+
+class Collect:
+    def __init__(self):
+        self.got = []
+
+    def __call__(self, v):
+        self.got.append(v)
+
+
+def snap(o):
+    """identity structure of the caller's containers (to see that a call left them alone)"""
+    if isinstance(o, (list, tuple)):
+        return (type(o), len(o), [(id(x), snap(x)) for x in o])
+    if isinstance(o, TagList):
+        return (type(o), len(o.data), [(id(x), snap(x)) for x in o.data])
+    if isinstance(o, dict):
+        return (type(o), list(o.keys()), [(id(v), str(v)) for v in o.values()])
+    if isinstance(o, Tag):
+        return ("Tag", o.name, o.add_ws, snap(dict(o.attrs)), snap(o.children))
+    return None
+
+
+def nest(objs, rs, depth):
+    """arguments whose flattening is objs: slices wrapped into lists / tuples / TagLists (one of them
+    `depth` containers deep), None sprinkled in"""
+    args = list(objs)
+    for _ in range(rs.choice([1, 2, 3])):
+        if not args:
+            break
+        i = rs.randrange(0, len(args))
+        j = rs.randrange(i, min(len(args), i + 70)) + 1
+        sl = args[i:j]
+        w = rs.choice(["list", "tuple", "taglist"])
+        box = list(sl) if w == "list" else tuple(sl) if w == "tuple" else TagList(*sl)
+        args[i:j] = [box]
+    if args:
+        i = rs.randrange(0, len(args))
+        x = args[i]
+        for k in range(depth):
+            x = [x] if k % 3 == 0 else (x,) if k % 3 == 1 else [None, x, None]
+        args[i] = x
+    for _ in range(rs.choice([0, 1, 2])):
+        args.insert(rs.randrange(0, len(args) + 1), None)
+    return args
+
+
+def fn_build(d, rs, attr_how=None):
+    """the tree built the way users do: tag functions of htmltools.tags / htmltools.svg / the top-level
+    re-exports (Tag() for other names); attributes as keyword arguments (also spelled with underscores),
+    as a positional dict, as another tag's .attrs, or through consolidate_attrs()"""
+    from htmltools import svg, tags
+    if d[0] == "T":
+        return leaf_obj(d[1], rs)
+    if d[0] != "G":
+        return mk(d)
+    name, ws, attrs = d[1], d[2], [(k, trees.mk_text(v[1])) for k, v in d[3]]
+    kids = [fn_build(k, rs, attr_how) for k in d[4]]
+    fs = []
+    for m in (tags, svg):
+        g = vars(m).get(name)
+        if callable(g) and getattr(g, "__module__", None) == m.__name__:
+            fs.append(g)
+            if name in htmltools.__all__ and callable(getattr(htmltools, name, None)) and m is tags:
+                fs.append(getattr(htmltools, name))          # the top-level re-export
+    f = rs.choice(fs) if fs and rs.random() < 0.85 else (lambda *a, **k: Tag(name, *a, **k))
+    how = attr_how or rs.choice(["kw", "kw_", "dict", "dicts", "attrs", "consolidate", "setitem"])
+    plain = all("_" not in k for k, _ in attrs)
+    if how == "kw" or not plain:
+        t = f(*kids, _add_ws=ws, **dict(attrs))
+    elif how == "kw_":
+        t = f(*kids, _add_ws=ws, **{("class_" if k == "class" else k.replace("-", "_") if rs.random() < 0.5 else k): v
+                                    for k, v in attrs})
+    elif how == "dict":
+        dd = dict(attrs)
+        t = f(dd, *kids, _add_ws=ws)
+        if list(dd.items()) != attrs:
+            raise Broken("the caller's attribute dict was changed")
+    elif how == "dicts":
+        cut = rs.randrange(0, len(attrs) + 1)
+        t = f(dict(attrs[:cut]), *kids, dict(attrs[cut:]), _add_ws=ws)
+    elif how == "attrs":
+        other = Tag("other", "its child", dict(attrs))
+        before = other.get_html_string()
+        t = f(other.attrs, *kids, _add_ws=ws)
+        t.attrs["data-probe"] = "p"
+        del t.attrs["data-probe"]
+        if other.get_html_string() != before or (t.attrs is other.attrs):
+            raise Broken("the tag whose .attrs were passed is affected")
+    elif how == "consolidate":
+        cut = rs.randrange(0, len(attrs) + 1)
+        a2, k2 = htmltools.consolidate_attrs(dict(attrs[:cut]), *kids, **dict(attrs[cut:]))
+        if len(k2) != len(kids) or any(x is not y for x, y in zip(k2, kids)):
+            raise Broken("consolidate_attrs() does not return the children as given")
+        t = f(a2, *k2, _add_ws=ws)
+    else:
+        t = f(*kids, _add_ws=ws)
+        for k, v in attrs:
+            if rs.random() < 0.5:
+                t.attrs[k] = v
+            else:
+                t.attrs.update({k: v})
+    return t
+
+
+def as_number(s):
+    """the number whose str() is s, if there is one (else None): a numeric leaf can be given as the number"""
+    for f in (int, float):
+        try:
+            v = f(s)
+        except (ValueError, OverflowError):
+            continue
+        if str(v) == s:
+            return v
+    return None
+
+
+def leaf_obj(s, rs):
+    n = as_number(s)
+    return n if n is not None and rs.random() < 0.6 else trees.mk_child_text(s)
+
+
+def with_build(d, rs):
+    """the tree built with with-blocks: every element is a context manager, its children are what
+    sys.displayhook is given inside the block"""
+    t = Tag(d[1], _add_ws=d[2])
+    for key, (m, v) in d[3]:
+        dict.__setitem__(t.attrs, key, trees.mk_text(v))
+    with t:
+        for k in d[4]:
+            if k[0] == "G":
+                with_build(k, rs)           # leaving its block hands it to the enclosing hook
+            else:
+                sys.displayhook(leaf_obj(k[1], rs) if k[0] == "T" else mk(k))
+                if k[0] == "T":
+                    sys.displayhook(None)   # nothing to show
+    return t
+
+
+def incremental(d, rs, noise):
+    """the element built empty and filled through append / extend / insert and attribute assignment;
+    `noise` is a second object of the same class that is filled in between (it must not matter)"""
+    t = Tag(d[1], _add_ws=d[2])
+    kids = [leaf_obj(k[1], rs) if k[0] == "T" else incremental(k, rs, noise) if k[0] == "G" else mk(k) for k in d[4]]
+    attrs = [(k, trees.mk_text(v[1])) for k, v in d[3]]
+    if attrs and all("_" not in k for k, _ in attrs) and rs.random() < 0.7:
+        for k, v in attrs:
+            noise.attrs["data-noise"] = "n<"
+            if rs.random() < 0.5:
+                t.attrs[k] = v
+            else:
+                t.attrs.update({k: v})
+    else:
+        for k, v in attrs:
+            dict.__setitem__(t.attrs, k, v)
+    i = 0
+    target = t if rs.random() < 0.5 else t.children        # Tag methods or those of its TagList
+    while i < len(kids):
+        noise.append("noise&")
+        op = rs.choice(["append", "appendN", "extend", "insert_end", "insert_mid"])
+        if op == "append":
+            target.append(kids[i])
+            i += 1
+        elif op == "appendN":
+            n = rs.choice([2, 3, 70])
+            target.append(*kids[i:i + n])
+            i += n
+        elif op == "extend":
+            n = rs.choice([0, 1, 3, 70])
+            target.extend(tuple(kids[i:i + n]) if rs.random() < 0.5 else list(kids[i:i + n]))
+            i += n
+        elif op == "insert_end":
+            target.insert(len(t.children), kids[i])
+            i += 1
+        else:
+            # the next two, the second first, the first then inserted before it
+            if i + 1 < len(kids):
+                pos = len(t.children)
+                target.append(kids[i + 1])
+                target.insert(pos, kids[i])
+                i += 2
+            else:
+                target.insert(len(t.children) + 5, kids[i])
+                i += 1
+    return t
+
+
+def run_route(route, d, seed, tmp):
+    """-> None or a message.  Everything random is drawn from Random(seed) (a replay repeats it)."""
+    rs = _random.Random(seed)
+    tagifiable = has_kind(d, "C")
+    indent = rs.choice([0, 1, 2, 3, 5] + BIG_INDENTS) if rs.random() < 0.8 else rs.randrange(0, 40)
+    eol = rs.choice(EOLS + BIG_EOLS)
+    lib_prefix = rs.choice([None, "lib", "a/b c/d", "", "x<y"])
+    inc_ver = rs.random() < 0.5
+
+    if route == "get_html_string":
+        x = mk(d)
+        if tagifiable:
+            x = x.tagify()
+        if d[0] == "L":
+            add_ws = rs.random() < 0.5
+            return judge_fragment(f"TagList.get_html_string({indent}, {eol!r}, add_ws={add_ws})",
+                                  x.get_html_string(indent, eol, add_ws=add_ws), d)
+        kw = rs.random() < 0.5
+        return judge_fragment(f"Tag.get_html_string({indent}, {eol!r})",
+                              x.get_html_string(indent=indent, eol=eol) if kw else x.get_html_string(indent, eol), d)
+
+    if route == "all routes":
+        x = mk(d)
+        for name, f in trees.render_routes(x) + [("get_html_string() again", lambda: x.get_html_string())]:
+            if tagifiable and name.startswith("get_html_string()"):
+                continue          # a tree holding objects not yet expanded is not rendered directly
+            out = f()
+            msg = judge_fragment(name, out, d)
+            if msg:
+                return msg
+        return None
+
+    if route == "save_html":
+        x = mk(doc_safe(d))
+        path = os.path.join(tmp, rs.choice(FILE_NAMES))
+        libdir = rs.choice([None, "lib", "a/b"])
+        r = x.save_html(path, libdir=libdir, include_version=inc_ver)
+        if r != path or not os.path.isfile(path):
+            return "save_html() does not return the path of the file it wrote"
+        return judge_document(f"{type(x).__name__}.save_html(libdir={libdir!r}, include_version={inc_ver}) file",
+                              read_file(path), doc_safe(d))
+
+    if route in ("document", "document file"):
+        dd = doc_safe(d)
+        kw = rs.choice(HTML_KW)
+        items = [mk(k) for k in top_items(dd)]
+        doc = htmltools.HTMLDocument(*items, **kw) if rs.random() < 0.6 else htmltools.HTMLDocument(TagList(*items), **kw)
+        if len(top_items(dd)) == 1 and top_items(dd)[0][0] == "G" and top_items(dd)[0][1] in ("html", "body"):
+            return None
+        if route == "document":
+            out = doc.render(lib_prefix=lib_prefix, include_version=inc_ver)["html"]
+            msg = judge_document(f"HTMLDocument(**{kw}).render(lib_prefix={lib_prefix!r}, include_version={inc_ver})",
+                                 out, dd, html_attrs=kw_expected(kw))
+            if msg:
+                return msg
+            out2 = _copy.copy(doc).render()["html"]
+            return judge_document("copy.copy(HTMLDocument).render()", out2, dd, html_attrs=kw_expected(kw))
+        path = os.path.join(tmp, rs.choice(FILE_NAMES))
+        libdir = rs.choice([None, "lib", "a/b"])
+        doc.save_html(path, libdir, inc_ver) if rs.random() < 0.5 else doc.save_html(path, libdir=libdir, include_version=inc_ver)
+        return judge_document(f"HTMLDocument(**{kw}).save_html(libdir={libdir!r}, include_version={inc_ver}) file",
+                              read_file(path), dd, html_attrs=kw_expected(kw))
+
+    if route == "own html":
+        # a document that has its own <html> / <head> / <body> (or only its own <body>), dependencies inside
+        x = mk(d)
+        kw = rs.choice(HTML_KW)
+        battrs = [("class", "b<\"")] if rs.random() < 0.5 else []
+        body = Tag("body", x, **dict(battrs))
+        if rs.random() < 0.5:
+            top = body
+            hattrs = kw_expected(kw)
+        else:
+            own = [("id", "own&")] if rs.random() < 0.5 else []
+            top = Tag("html", Tag("head"), body, **dict(own))
+            hattrs = [list(a) for a in own] + kw_expected(kw)
+        doc = htmltools.HTMLDocument(top, **kw)
+        out = doc.render(lib_prefix=lib_prefix, include_version=inc_ver)["html"]
+        msg = judge_document("HTMLDocument(own <html>/<body>).render()", out, d, html_attrs=hattrs, body_attrs=battrs)
+        if msg:
+            return msg
+        # the user's own elements are left as they were
+        return judge_fragment("the user's <body> after the document was rendered", body.tagify().get_html_string(),
+                              ("G", "body", True, [(k, ("S", v)) for k, v in battrs], top_items(d)), events=False)
+
+    if route == "document append":
+        dd = doc_safe(d)
+        items = top_items(dd)
+        if len(items) == 1 and items[0][0] == "G" and items[0][1] in ("html", "body"):
+            return None
+        doc, other = htmltools.HTMLDocument(), htmltools.HTMLDocument()
+        i = rounds = 0
+        while i < len(items):
+            n = rs.choice([1, 1, 2, 70])
+            rounds += 1
+            other.append("other<", Tag("i", "o"))
+            doc.append(*[mk(k) for k in items[i:i + n]])
+            i += n
+        msg = judge_document("HTMLDocument().append(...) render()", doc.render(lib_prefix=lib_prefix)["html"], dd, html_attrs=[])
+        if msg:
+            return msg
+        return judge_document("a second HTMLDocument that was filled in between", other.render()["html"],
+                              ("L", [("T", "other<"), ("G", "i", True, [], [("T", "o")])] * rounds), html_attrs=[])
+
+    if route == "head_content":
+        # the tree goes into the <head> through head_content(), from deep inside the body of a document
+        x = mk(d)
+        if tagifiable:
+            x = x.tagify()          # head_content() renders its arguments at once
+        hc = htmltools.head_content(x, mk(("M", DEP_PAYLOADS[0]))) if rs.random() < 0.3 else htmltools.head_content(x)
+        holder = Tag("div", "in body<", hc)
+        if rs.random() < 0.5:
+            doc = htmltools.HTMLDocument(holder)
+        else:
+            doc = htmltools.HTMLDocument(Tag("html", Tag("head"), Tag("body", holder)))
+        out = doc.render(lib_prefix=lib_prefix, include_version=inc_ver)["html"]
+        return judge_document("HTMLDocument(div(head_content(tree))).render()", out, ("G", "div", True, [], [("T", "in body<")]),
+                              in_head=d)
+
+    if route == "json text document":
+        x = mk(d)
+        old = htmltools.html_dependency_render_mode
+        try:
+            htmltools.html_dependency_render_mode = "json"
+            s = str(x)
+        finally:
+            htmltools.html_dependency_render_mode = old
+        pat = rs.choice(PATTERNS)
+        extra = [mk(("M", rs.choice(DEP_PAYLOADS)))] if rs.random() < 0.5 else []
+        doc = htmltools.HTMLTextDocument(f"<html><head>{pat}</head><body>{s}</body></html>", deps=extra, deps_replace_pattern=pat)
+        out = doc.render(lib_prefix=lib_prefix, include_version=inc_ver)["html"]
+        msg = judge_document("HTMLTextDocument(<markup of json mode>, deps_replace_pattern=%r).render()" % pat, out, d, doctype=False)
+        if msg:
+            return msg
+        out2 = doc.render()["html"]
+        return judge_document("HTMLTextDocument.render() a second time", out2, d, doctype=False)
+
+    if route == "with block":
+        if d[0] != "G" or tagifiable:
+            return None
+        got = Collect()
+        old = sys.displayhook
+        sys.displayhook = got
+        try:
+            t = with_build(d, rs)
+        finally:
+            hook_after = sys.displayhook
+            sys.displayhook = old
+        if hook_after is not got:
+            return "after the with-block sys.displayhook is not the one that was installed before it"
+        if len(got.got) != 1 or got.got[0] is not t:
+            return "leaving the outermost with-block does not hand exactly the tag to the previous sys.displayhook"
+        ys = [("tag built in with-blocks", t), ("copy.copy of a tag that was a context manager", _copy.copy(t))]
+        if depth_of(d) <= 40:
+            ys.append(("copy.deepcopy of a tag that was a context manager", _copy.deepcopy(t)))
+        for label, y in ys:
+            for name, f in (trees.render_routes(y) if y is t else trees.render_routes(y)[:1] + trees.render_routes(y)[3:4]):
+                msg = judge_fragment(f"{label}, {name}", f(), d)
+                if msg:
+                    return msg
+        return None
+
+    if route == "tag functions":
+        t = TagList(*[fn_build(k, rs) for k in d[1]]) if d[0] == "L" else fn_build(d, rs)
+        if tagifiable:
+            t = t.tagify()
+        out = t.get_html_string(indent, eol)
+        return judge_fragment("tree built with tag functions / keyword, dict, .attrs, consolidate_attrs attributes", out, d)
+
+    if route == "nested containers":
+        if d[0] == "C":
+            return None
+        kids = d[1] if d[0] == "L" else d[4]
+        objs = [leaf_obj(k[1], rs) if k[0] == "T" else mk(k) for k in kids]
+        args = nest(objs, rs, rs.choice([0, 3] + DEPTHS))
+        before = snap(args)
+        if d[0] == "L":
+            x = TagList(*args) if rs.random() < 0.6 else TagList(args)
+        else:
+            x = Tag(d[1], *args, _add_ws=d[2]) if rs.random() < 0.6 else Tag(d[1], args, _add_ws=d[2])
+            for key, (m, v) in d[3]:
+                dict.__setitem__(x.attrs, key, v)
+        y = x.tagify() if tagifiable else x
+        msg = judge_fragment("children given as nested lists / tuples / TagLists / None", y.get_html_string(indent, eol), d)
+        if msg is None and snap(args) != before:
+            msg = "the caller's containers of children were changed by building / rendering the tree"
+        return msg
+
+    if route == "incremental":
+        noise = Tag("div")
+        if d[0] == "L":
+            x, other = TagList(), TagList()
+            for k in d[1]:
+                other.append("o")
+                o = leaf_obj(k[1], rs) if k[0] == "T" else incremental(k, rs, noise) if k[0] == "G" else mk(k)
+                rs.choice([x.append, lambda v: x.extend([v]), lambda v: x.insert(len(x), v)])(o)
+        else:
+            x = incremental(d, rs, noise)
+        y = x.tagify() if tagifiable else x
+        msg = judge_fragment("tree built with append / extend / insert / attrs[...] =", y.get_html_string(indent, eol), d)
+        if msg:
+            return msg
+        fresh = Tag("div")                       # a new object of the class starts empty
+        return judge_fragment("a Tag created after others were filled", fresh.get_html_string(), ("G", "div", True, [], []))
+
+    if route == "list arithmetic":
+        items = top_items(d)
+        objs = [trees.mk_child_text(k[1]) if k[0] == "T" else mk(k) for k in items]
+        cut = rs.randrange(0, len(objs) + 1)
+        a, b = objs[:cut], objs[cut:]
+        want_d = ("L", items)
+        outs = []
+        la, lb = TagList(*a), rs.choice([list, tuple])(b)
+        r1 = la + lb
+        outs.append(("TagList + list/tuple", r1))
+        outs.append(("TagList + TagList", TagList(*a) + TagList(*b)))
+        outs.append(("list/tuple + TagList (__radd__)", rs.choice([list, tuple])(a) + TagList(*b) if rs.random() < 0.5
+                     else TagList(*b).__radd__(a)))
+        l3 = TagList(*a)
+        l3 += lb
+        outs.append(("TagList += list/tuple", l3))
+        if len(a) == 1 and isinstance(a[0], str):
+            outs.append(("str + TagList", a[0] + TagList(*b)))
+        if len(b) == 1 and isinstance(b[0], str):
+            outs.append(("TagList + str", TagList(*a) + b[0]))
+        outs.append(("the left operand after +", la))
+        for label, v in outs:
+            if not isinstance(v, TagList):
+                return f"{label} is not a TagList"
+            dd = ("L", items[:cut]) if label == "the left operand after +" else want_d
+            vv = v.tagify() if tagifiable else v
+            msg = judge_fragment(label, vv.get_html_string(indent, eol, add_ws=rs.random() < 0.5), dd)
+            if msg:
+                return msg
+        return None
+
+    if route == "copies":
+        x = mk(d)
+        ys = [("copy.copy", _copy.copy(x)), ("tagify()", x.tagify()), ("copy of a copy", _copy.copy(_copy.copy(x)))]
+        if depth_of(d) <= 40:       # copy.deepcopy needs ~10 interpreter frames per level (the interpreter's limit, not the library's)
+            ys.append(("copy.deepcopy", _copy.deepcopy(x)))
+        for label, y in ys + [("the original after copying", x)]:
+            yy = y.tagify() if tagifiable else y
+            msg = judge_fragment(label, yy.get_html_string(indent, eol), d)
+            if msg:
+                return msg
+            msg = judge_fragment(label + ", str()", str(y), d)
+            if msg:
+                return msg
+        return None
+
+    if route == "two parents":
+        # the same objects in two parents (and twice in one of them): each parent parses back to its own tree
+        items = top_items(d)
+        objs = [trees.mk_child_text(k[1]) if k[0] == "T" else mk(k) for k in items]
+        p1 = Tag("div", *objs, "one<", *objs, _add_ws=rs.random() < 0.5)
+        p2 = Tag("span", TagList(*objs), id="two", _add_ws=rs.random() < 0.5)
+        p3 = TagList(p1, p2, *objs)
+        d1 = ("G", "div", True, [], items + [("T", "one<")] + items)
+        d2 = ("G", "span", False, [("id", ("S", "two"))], items)
+        for label, y, dd in (("first parent", p1, d1), ("second parent", p2, d2), ("list holding both", p3, ("L", [d1, d2] + items)),
+                             ("first parent again", p1, d1)):
+            for name, f in trees.render_routes(y)[1:4:2]:       # tagify().get_html_string(), str()
+                msg = judge_fragment(f"one object in two parents: {label}, {name}", f(), dd, events=True)
+                if msg:
+                    return msg
+        return None
+
+    raise ValueError(route)
+
+
+ROUTES = ["get_html_string", "all routes", "save_html", "document", "document file", "own html", "document append",
+          "head_content", "json text document", "with block", "tag functions", "nested containers", "incremental",
+          "list arithmetic", "copies", "two parents"]
+
+
+def decorate(d, rng, top=True):
+    """an ordinary tree with, here and there: text over the boundary code points, dependency nodes
+    (HTMLDependency / head_content), tagifiable objects (some self-rendering too) whose expansion is
+    ordinary; at the top sometimes a list of several trees and leaves"""
+    if d[0] == "T":
+        return ("T", uni_text(rng, rng.randrange(1, 9))) if rng.random() < 0.12 else d
+    if d[0] != "G":
+        return d
+    kids = []
+    for k in d[4]:
+        k = decorate(k, rng, False)
+        r = rng.random()
+        if r < 0.04:
+            kids.append(("M", rng.choice(DEP_PAYLOADS)))
+        if r > 0.95:
+            n = rng.choice([0, 1, 1, 2])
+            exp = ([k] + [("T", trees.rand_text(rng, 4)), ("M", None)])[:n]
+            k = ("C", rng.choice([None, None, "<i>own markup</i>"]), exp, n != 1 or rng.random() < 0.5)
+        kids.append(k)
+    attrs = [(a, ("S", uni_text(rng, rng.randrange(1, 7)))) if rng.random() < 0.1 else (a, v) for a, v in d[3]]
+    g = ("G", d[1], d[2], attrs, kids)
+    if top and rng.random() < 0.3:
+        n = rng.choice([0, 1, 2, 3, 5])
+        return ("L", [rng.choice([("T", trees.rand_text(rng, 6)), g, ("M", None), ("G", "hr", True, [], [])]) for _ in range(n)] + [g]
+                + ([("T", uni_text(rng, 3))] if rng.random() < 0.5 else []))
+    return g
+
+
+def routes(ctx: Ctx, catalogue, bigs) -> None:
+    """Every entry point and argument listed at the top of this file, on (a) a tree holding every
+    boundary code point, (b) the big cases (every case through three routes, the routes taking turns),
+    (c) random ordinary trees with dependency nodes / tagifiable objects / top-level lists."""
+    rng = ctx.rng
+    cases = []
+    allcp = "".join(chr(c) for c in BOUNDARY_CPS)
+    for r in ROUTES:
+        d = ("G", "div", rng.random() < 0.5, [("title", ("S", allcp)), ("data-x", ("S", uni_text(rng, 8)))],
+             [("T", allcp), ("G", "span", False, [("id", ("S", uni_text(rng, 5)))], [("T", uni_text(rng, 8))]),
+              ("T", uni_text(rng, 8)), ("G", "img", False, [("alt", ("S", allcp[::-1]))], [])])
+        cases.append((r, d, rng.randrange(2 ** 32)))
+        cases.append((r, ("L", [("T", uni_text(rng, 8)), d, ("T", allcp)]), rng.randrange(2 ** 32)))
+    start = rng.randrange(len(ROUTES))
+    for i, (d, what) in enumerate(bigs):
+        for j in range(3):
+            cases.append((ROUTES[(start + 3 * i + j) % len(ROUTES)], d, rng.randrange(2 ** 32)))
+    # one document on disk of more than 256 KiB (not a multiple of 64 KiB), the telling text at the block seams and in the tail
+    cases.append(("save_html", ("G", "div", True, [], [("T", long_text(rng, 270011)), ("G", "br", False, [], []), ("T", "tail<&\u0093")]),
+                  rng.randrange(2 ** 32)))
+    cases.append(("document file", ("L", [("G", "p", True, [("title", ("S", long_text(rng, 140001)))], [("T", long_text(rng, 131073))])]),
+                  rng.randrange(2 ** 32)))
+    for _ in range(ctx.budget(400, 6000)):
+        d = decorate(ord_tree(rng, rng.choice([1, 2, 3, 3, 4]), catalogue), rng)
+        for r in rng.sample(ROUTES, 2):
+            cases.append((r, d, rng.randrange(2 ** 32)))
+    cases = ctx.select(STEP, cases)
+    tmp = tempfile.mkdtemp(prefix="c01-")
+    old_hook, old_mode = sys.displayhook, htmltools.html_dependency_render_mode
+
+    def guarded(route, d, seed):
+        try:
+            return run_route(route, d, seed, tmp)
+        except Broken as e:
+            return str(e)
+    try:
+        for c in cases:
+            route, d, seed = c
+            ctx.count(("route", route, seed, d), True, "route: " + route)
+            LAST.clear()
+            r = safe_call(guarded, route, d, seed)
+            msg = r[1] if r[0] == "ok" else f"raised {r[1]!r} on an ordinary tree"
+            if sys.displayhook is not old_hook or htmltools.html_dependency_render_mode != old_mode:
+                sys.displayhook, htmltools.html_dependency_render_mode = old_hook, old_mode
+                msg = msg or "sys.displayhook / html_dependency_render_mode is not restored"
+            if msg:
+                out = LAST.get("output")
+                ctx.violation(f"{STEP}: {route}: {msg}", c,
+                              {"impl_output": out if not isinstance(out, str) or len(out) <= 4000 else out[:2000] + " ... " + out[-2000:],
+                               "expected_forest_size": len(canon(expected(d)))})
+    finally:
+        shutil.rmtree(tmp, ignore_errors=True)
 
 
 def replay(ctx: Ctx, path: str) -> None:
